@@ -24,7 +24,9 @@
    (C12_threshold_pass_any_length); the sections of a part carry the language
    of the part (C12_part_language); and the table returned by get_txt_pos_ml
    lists under each language exactly the parts labelled with it, in order
-   (C12_every_section_in_one_part).  Not proved: the label under deeper nesting
+   (C12_every_section_in_one_part); the placeholder written for a short
+   insertion is the next one of the language-change collection of the
+   surrounding part's language (C12_placeholder_of_part_language).  Not proved: the label under deeper nesting
    (the full stack discipline) and which insertions the threshold rule selects
    on longer lists; compared with the implementation and decided by the oracle
    of harness/props/c12.py on the C12 stream. *)
@@ -117,6 +119,24 @@ Theorem C12_part_positions_per_character : forall o srcs, glued o srcs ->
   length (s_txt o) = length (s_pos o).
 Proof. exact glued_lengths. Qed.
 Print Assumptions C12_part_language.
+
+(* the placeholder of a short insertion: from the language-change collection
+   of the language of the part it is written into, the next one in rotation;
+   around it at most the blank at each edge of the insertion *)
+Theorem C12_placeholder_of_part_language : forall is_space check_lang rot sec incl sec' rot',
+  blank is_space (s_txt incl) = false ->
+  append_placeholder is_space check_lang rot sec incl = Ok (sec', rot') ->
+  let key := check_lang (s_lang sec) in
+  let coll := match find (fun e => str_eqb (fst e) key) rot with
+              | Some e => snd e | None => [] end in
+  exists x r ph rest e1 e2,
+    coll = x :: r /\ r ++ [x] = ph :: rest /\
+    s_txt sec' = s_txt sec ++ e1 ++ ph ++ e2 /\
+    (e1 = [] \/ exists c, e1 = [c] /\ is_space c = true) /\
+    (e2 = [] \/ exists c, e2 = [c] /\ is_space c = true) /\
+    rot' = map (fun e => if str_eqb (fst e) key then (fst e, ph :: rest) else e) rot.
+Proof. exact placeholder_of_part_language. Qed.
+Print Assumptions C12_placeholder_of_part_language.
 
 Theorem C12_every_section_in_one_part : forall is_space check_lang thresh toks main rot res,
   get_txt_pos_ml is_space check_lang thresh toks main rot = Ok res ->
